@@ -70,7 +70,11 @@ def gen_unit(rng):
             del args[i:i + 2]
         args += ["--filter", "(< .s 0)"]
         pat = [p for p in pat if p != "filter"] + ["filter", "dead-tail"]
-    elif r < 0.35:
+    elif r < 0.3:
+        # after the prefix the input is blank for ever (an idle but open producer): nothing can follow the last wanted row
+        mode = "blank-tail"
+        pat = pat + ["dead-tail"]
+    elif r < 0.42:
         # every tail row is a duplicate: only .k is selected, then --unique (the running counter is not part of the row)
         mode = "duplicate-tail"
         args = ["--select", ".k=k", "--unique"] + (["--set", "one=1"] if rng.random() < 0.3 else [])
@@ -81,12 +85,12 @@ def gen_unit(rng):
             for i, r in enumerate(recs):
                 r["s"] = -1 - i
         # the last wanted row must come from the prefix (otherwise jawk may legitimately read for ever)
-        need = rng.randint(1, len(recs) if mode == "filtered-tail" else 2)
+        need = rng.randint(1, len(recs) if mode in ("filtered-tail", "blank-tail") else 2)
         S = rng.randint(0, need - 1)
         T = need - S
     sep = rng.choice(["\n", "\n", " ", "", "\t", "\r\n"])
-    return {"prefix": recs, "args": args, "pattern": pat, "S": S, "T": T, "transport": rng.choice(["stdin", "stdin", "fifo"]),
-            "mode": mode, "sep": sep}
+    return {"prefix": recs, "args": args, "pattern": pat, "S": S, "T": T, "transport": rng.choice(["stdin", "stdin", "fifo", "file+fifo"]),
+            "mode": mode, "sep": sep, "file_parts": rng.randint(0, len(recs))}
 
 
 def run_unit(ctx, unit):
@@ -103,7 +107,13 @@ def run_unit(ctx, unit):
         ends.append(pos)
     S, T = unit["S"], unit["T"]
     need = S + T
-    tail = [TAIL_PRE + str(i).encode() + TAIL_POST for i in range(need + 2)]
+    blank = unit.get("mode") == "blank-tail"
+    if blank:
+        TAIL_PRE_U, TAIL_POST = b"", (sep if sep.strip() == b"" and sep else b" ") * 3
+        tail = [TAIL_POST for i in range(need + 2)]
+    else:
+        TAIL_PRE_U = TAIL_PRE
+        tail = [TAIL_PRE + str(i).encode() + TAIL_POST for i in range(need + 2)]
     # rows produced by growing finite prefixes (same pipeline, no limits): locate the deciding value
     finite = []
     acc = b""
@@ -134,10 +144,18 @@ def run_unit(ctx, unit):
     tail_len = len(TAIL_PRE) + 12 + len(TAIL_POST)
     cap = len(prefix) + CAP_EXTRA
     largs = unit["args"] + ["--skip", str(S), "--take", str(T)]
+    in_file = 0
     if unit["transport"] == "stdin":
-        case = core.Case(largs, endless=(prefix, TAIL_PRE, TAIL_POST, cap), watchdog_ms=30000)
+        case = core.Case(largs, endless=(prefix, TAIL_PRE_U, TAIL_POST, cap), watchdog_ms=30000)
+    elif unit["transport"] == "fifo":
+        case = core.Case(largs + ["@D@/endless.fifo"], efifos=[("endless.fifo", prefix, TAIL_PRE_U, TAIL_POST, cap)], watchdog_ms=30000)
     else:
-        case = core.Case(largs + ["@D@/endless.fifo"], efifos=[("endless.fifo", prefix, TAIL_PRE, TAIL_POST, cap)], watchdog_ms=30000)
+        # the first records in an ordinary file, the rest and the endless tail in a FIFO given as the second input
+        k = min(unit.get("file_parts", 0), len(parts))
+        first, rest = b"".join(parts[:k]), b"".join(parts[k:])
+        in_file = len(first)
+        case = core.Case(["@D@/first.json", "@D@/endless.fifo"] + largs, files=[("first.json", first)],
+                         efifos=[("endless.fifo", rest, TAIL_PRE_U, TAIL_POST, cap)], watchdog_ms=30000)
     o = ctx.drv.run(case)
     if o.result in ("timeout", "abort"):
         o, ok = ctx.drv.confirm(case, o)
@@ -164,6 +182,7 @@ def run_unit(ctx, unit):
             st.inconc("fifo_stats_missing")
             return
         pulled, opened, capped = o.efifo[0]
+        pulled += in_file
         slack = SLACK + 64 * 1024 + 8 * 1024 + tail_len   # pipe buffer + BufReader
     if capped:
         bad("read-to-cap", "jawk was still reading after %d bytes of an endless input although row S+T=%d was produced by byte %d" % (pulled, need, end_off))
